@@ -447,14 +447,15 @@ def qr_move_scp(asce, ctx, msg):
     ds = dsutils.decode(msg.data_set, ctx.supported_ts.is_implicit_VR,
                         ctx.supported_ts.is_little_endian)
 
-    # make response
-    rsp = dimsemessages.CMoveRSPMessage()
-    rsp.message_id_being_responded_to = msg.message_id
-    rsp.sop_class_uid = msg.sop_class_uid
-    remote_ae, nop, gen = asce.ae.on_receive_move(ctx, ds, msg.move_destination)
+    try:
+        remote_ae, nop, gen = asce.ae.on_receive_move(ctx, ds, msg.move_destination)
+    except exceptions.EventHandlingError:
+        _send_response(asce, ctx, msg, 0, 0, 0, 0, statuses.C_MOVE_UNABLE_TO_PROCESS)
+        return
     if not nop:
         # nothing to move
         _send_response(asce, ctx, msg, 0, 0, 0, 0)
+        return
 
     with asce.ae.request_association(remote_ae) as assoc:
         failed = 0
@@ -468,19 +469,25 @@ def qr_move_scp(asce, ctx, msg):
                 failed += 1
             if status.is_warning:
                 warning += 1
+            completed += 1
+
+            # one message object per report: a sent message is encoded later, by the
+            # DUL provider thread, and must not be modified any more
+            rsp = dimsemessages.CMoveRSPMessage()
+            rsp.message_id_being_responded_to = msg.message_id
+            rsp.sop_class_uid = msg.sop_class_uid
             rsp.status = int(statuses.C_MOVE_PENDING)
             rsp.num_of_remaining_sub_ops = nop - completed
             rsp.num_of_completed_sub_ops = completed
             rsp.num_of_failed_sub_ops = failed
             rsp.num_of_warning_sub_ops = warning
-            completed += 1
 
             # send response
             asce.send(rsp, ctx.id)
         _send_response(asce, ctx, msg, nop, failed, warning, completed)
 
 
-def _send_response(asce, ctx, msg, nop, failed, warning, completed):
+def _send_response(asce, ctx, msg, nop, failed, warning, completed, status=statuses.SUCCESS):
     rsp = dimsemessages.CMoveRSPMessage()
     rsp.message_id_being_responded_to = msg.message_id
     rsp.sop_class_uid = msg.sop_class_uid
@@ -488,7 +495,7 @@ def _send_response(asce, ctx, msg, nop, failed, warning, completed):
     rsp.num_of_completed_sub_ops = completed
     rsp.num_of_failed_sub_ops = failed
     rsp.num_of_warning_sub_ops = warning
-    rsp.status = int(statuses.SUCCESS)
+    rsp.status = int(status)
     asce.send(rsp, ctx.id)
 
 
